@@ -226,8 +226,8 @@ class CFG:
                 vs = pure(f[0])
                 if not vs:
                     continue
-                key = fn.text(f[0])
-                keys[f[0]] = (key, frozenset(vs))
+                key, flip = self._ckey(f[0])
+                keys[f[0]] = (key, frozenset(vs), flip)
                 count.setdefault(key, set()).add(f[0])
         self._trk = {e: kv for e, kv in keys.items() if len(count[kv[0]]) >= 2}
         # definitions: element -> set of decl ids written
@@ -249,6 +249,31 @@ class CFG:
                 self._defs[n["i"]] = ds
         return self._trk
 
+    def _ckey(self, e):
+        """spelling-independent identity of a condition: (key, flip) such that two conditions with the same key are
+        the same test (flip equal) or each other's negation (flip different): `a != b`, `b == a`, `!(a == b)`;
+        `a < b`, `b > a`, `!(a >= b)`"""
+        fn = self.fn
+        i = fn.strip(e)
+        n = fn.nodes[i]
+        flip = False
+        while n["k"] == "UnaryOperator" and n["op"] == "!":
+            i = fn.strip(n["c"][0])
+            n = fn.nodes[i]
+            flip = not flip
+        if n["k"] == "BinaryOperator" and n["op"] in ("==", "!=", "<", "<=", ">", ">="):
+            a, b, op = fn.text(n["c"][0]), fn.text(n["c"][1]), n["op"]
+            if op in ("==", "!="):
+                if b < a:
+                    a, b = b, a
+                return "%s == %s" % (a, b), flip != (op == "!=")
+            if op in (">", ">="):
+                a, b, op = b, a, {">": "<", ">=": "<="}[op]
+            if op == "<=":      # a <= b  is  !(b < a)
+                a, b, flip = b, a, not flip
+            return "%s < %s" % (a, b), flip
+        return fn.text(i), flip
+
     def facts_at(self, pt):
         """tracked facts that hold on every path from the entry to `pt` (their variables are never re-assigned)"""
         if not hasattr(self, "_facts_at"):
@@ -263,7 +288,7 @@ class CFG:
         params = set(self.fn.pids)
         out = set()
         cands = {}
-        for e, (key, vs) in trk.items():
+        for e, (key, vs, flip) in trk.items():
             # declared-once locals are "assigned" by their DeclStmt; allow those defined exactly once
             if all(self._single_def(v) for v in vs):
                 cands[key] = vs
@@ -273,7 +298,7 @@ class CFG:
                     fa = self.fact(lab)
                     if fa is None or fa[0] not in trk:
                         return True
-                    return not (trk[fa[0]][0] == key and fa[1] == pol)
+                    return not (trk[fa[0]][0] == key and (fa[1] != trk[fa[0]][2]) == pol)
                 if pt not in self.reach([self.entry], edge_ok=edge_ok):
                     out.add((key, pol, vs))
         self._facts_at[pt] = frozenset(out)
@@ -322,10 +347,11 @@ class CFG:
                 if lab is not None and trk:
                     fa = self.fact(lab)
                     if fa is not None and fa[0] in trk:
-                        key, vs = trk[fa[0]]
-                        if (key, not fa[1], vs) in facts:
+                        key, vs, flip = trk[fa[0]]
+                        val = fa[1] != flip
+                        if (key, not val, vs) in facts:
                             continue
-                        nf = facts | {(key, fa[1], vs)}
+                        nf = facts | {(key, val, vs)}
                 st = (q, nf)
                 if st in seen:
                     continue
